@@ -55,12 +55,17 @@ def main(argv):
         return 0
     jobs = int(argv[argv.index("-j") + 1]) if "-j" in argv else 6
     suite = "--suite" in argv
-    ids = [a for a in argv[1:] if not a.startswith("-") and not a.isdigit()] or sorted(os.listdir(BEN))
+    ids = [a for a in argv[1:] if not a.startswith("-") and not a.isdigit()] or sorted(
+        d for d in os.listdir(BEN) if os.path.isdir(os.path.join(BEN, d)))
+    open_ = {}
+    if os.path.exists(os.path.join(BEN, "OPEN.json")):
+        open_ = {k: v for k, v in json.load(open(os.path.join(BEN, "OPEN.json"))).items() if not k.startswith("_")}
     out = {}
     with cf.ThreadPoolExecutor(max_workers=jobs) as ex:
         for r in ex.map(lambda b: check(b, suite), ids):
             out[r["id"]] = r
-            print(r["id"], "QUIET" if not r.get("fired") and not r.get("broken") and not r.get("error") else "FIRED",
+            print(r["id"], "QUIET" if not r.get("fired") and not r.get("broken") and not r.get("error") else
+                  ("OPEN(known false alarm)" if r["id"] in open_ and not r.get("broken") else "FIRED"),
                   sorted(r.get("fired", {})), r.get("error", ""), sorted(r.get("broken", {})), r.get("suite_same_as_baseline", ""))
             for c, ls in r.get("fired", {}).items():
                 for l in ls[:3]:
